@@ -24,6 +24,9 @@ REQUIRED_THEOREMS = [
     "source_border_cycle_correct", "source_extract_border_cycle_all_eq_model", "source_border_cycles_all_correct",
     "source_extract_boundary_eq_model", "source_boundary_polyline_correct", "cyclesOk_of_mesh",
     "source_feature_passes_eq_model", "source_feature_set_exact", "source_flag_corners_eq_model", "source_corner_flagging_exact",
+    # round 5: bodies of run() / clear()
+    "source_run_resets", "source_run_feature_edges_exact", "source_run_feature_vertices_exact", "source_run_degrees_eq_model",
+    "source_run_local_feat_exact", "source_run_attributes",
 ]
 TRUSTED = [
     "Lean 4.33.0 kernel; axioms ⊆ {propext, Classical.choice, Quot.sound}",
@@ -820,8 +823,15 @@ def _run_reset_site(tree):
     if any(got.get(k) != v for k, v in want.items()):
         raise T.TranslateError(f"clear(): containers are not re-created as expected: {got}")
     # the has_attribute / get_attribute (+ .clear()) / create_attribute branch for mesh.edges "feature" (any local variable name)
-    ifs = [st for st in ast.walk(run) if isinstance(st, ast.If) and ast.unparse(st.test).replace('"', "'") == "mesh.edges.has_attribute('feature')"]
+    def _pos(st):
+        """(test source, then-branch, else-branch) of an `if`, with `if not c: A else: B` read as `if c: B else: A`"""
+        if isinstance(st.test, ast.UnaryOp) and isinstance(st.test.op, ast.Not):
+            return ast.unparse(st.test.operand).replace('"', "'"), st.orelse, st.body
+        return ast.unparse(st.test).replace('"', "'"), st.body, st.orelse
+    ifs = [st for st in ast.walk(run) if isinstance(st, ast.If) and _pos(st)[0] == "mesh.edges.has_attribute('feature')"]
     if len(ifs) != 1: raise T.TranslateError("run(): `if mesh.edges.has_attribute('feature')` branch not found (or not unique)")
+    _, body_, orelse_ = _pos(ifs[0])
+    ifs[0].body, ifs[0].orelse = body_, orelse_
     b = [ast.unparse(x).replace('"', "'") for x in ifs[0].body]
     o = [ast.unparse(x).replace('"', "'") for x in ifs[0].orelse]
     if not (b and isinstance(ifs[0].body[0], ast.Assign) and isinstance(ifs[0].body[0].targets[0], ast.Name)):
@@ -872,7 +882,8 @@ def translate():
     s3 = T.site("features.py: FeatureEdgeDetector.run/clear resets (self.clear() first; existing edge attribute 'feature' .clear()ed; own normals not persistent)",
                 lambda: vals.setdefault("resets", _run_reset_site(tree)) and {"self_clear": vals["resets"][0], "edge_clear": vals["resets"][1],
                                                                               "normals_persistent": vals["resets"][2]})
-    sc, ec, npers = vals.get("resets", (True, True, False))
+    # (site refused: flags for which `generated_run_resets` does NOT build, never the values of an earlier tree)
+    sc, ec, npers = vals.get("resets", (False, False, True))
     T.write_generated("C15Run", "def runFlags : Mouette.Features.RunFlags := { selfClear := %s, edgeClear := %s, normalsPersistent := %s }\nend Mouette.Generated.C15\n"
                       % tuple("true" if b else "false" for b in (sc, ec, npers)), "import Mouette.Model.FeatRuns\nnamespace Mouette.Generated.C15\n")
     s1 = T.site("features.py: _add_sharp_angles_to_features DOT_THRESHOLD / `dot(N1,N2) < DOT_THRESHOLD`",
@@ -897,10 +908,10 @@ def _smap():
          B + "extract_boundary_of_volume": "out-of-scope: volume meshes (the statement is about surfaces)"}
     for f in ["_add_border_to_features", "_add_hard_edges_to_features", "_add_sharp_angles_to_features", "_flag_corners"]:
         m[F + f] = "translated"
-    m[F + "run"] = ("modelled: the reset structure (self.clear() first, .clear() of the existing attribute, private normals) is translated into "
-                    "Generated/C15Run.lean flags; the order of the three passes is checked by the translator; the container loops "
-                    "(feature_edges / feature_vertices / local_feat_edges / feature_degrees) are hand-modelled in Model/FeatRuns.lean")
-    m[F + "clear"] = "modelled: which containers are re-created is read by the translator (Generated/C15Run.lean selfClear)"
+    m[F + "run"] = ("translated: whole body (Generated/C15RunSrc.lean; theorems source_run_*): clear() first, both `feature` attributes opened "
+                    "and cleared, the three passes in order, the container loops, the final vertex flags; the normals branch, the _flag_corners "
+                    "call and the feature-graph block are recognised (exact shape required) and left out: they write none of the containers")
+    m[F + "clear"] = "translated"
     m[F + "__init__"] = "modelled: the option attributes are inputs of the model"
     m[F + "detect"] = "modelled: alias of run"
     for f in ["feature_graph", "corner_point_cloud", "_compute_feature_graph", "_compute_corner_point_cloud"]:
